@@ -43,10 +43,18 @@ def fake_scipy_norm(uf=True, congruence=False):
         if not c.symbolic:
             # concrete replay: constant stub returning the model's value, if the
             # model assigned one; otherwise the real library
+            if congruence:
+                for (x0, r0) in seen:
+                    if abs(float(x0) - float(x)) <= 1e-9 * max(1.0, abs(float(x))) or (x0 != x0 and x != x):
+                        return r0
             if c.has("Phi"):
                 c.stubbed.append("Phi")
-                return c.real("Phi")
-            return real.norm.cdf(x, loc, scale)
+                r = c.real("Phi")
+            else:
+                r = real.norm.cdf(x, loc, scale)
+            if congruence:
+                seen.append((x, r))
+            return r
         if not _any_sym(x):
             return real.norm.cdf(x, loc, scale)
         # uf=False: an arbitrary value in [0,1] per call (weaker contract, keeps
